@@ -227,6 +227,19 @@ def find_item(sf, segs):
             else:
                 if it.body_open is None:
                     continue
+                if it.kind == "fn":
+                    # nested fn item inside a function body (R5 hoisting): scan the body tokens
+                    nk, nn = segs[1].split(None, 1)
+                    if nk != "fn" or len(segs) != 2:
+                        raise Lost("only `fn` items can be addressed inside a fn body")
+                    T = sf.toks
+                    for k in range(it.body_open + 1, it.body_close):
+                        if T[k].text == "fn" and T[k].kind == "id" and T[k + 1].text == nn.strip():
+                            j = k
+                            while T[j].text != "{":
+                                j = sf.skip_group(j) if T[j].text in ("(", "[") else j + 1
+                            found.append(chain + [it, Item("fn", nn.strip(), k, sf.groups[j] + 1, k, j, sf.groups[j])])
+                    continue
                 found.extend(rec(it.body_open + 1, it.body_close, segs[1:], chain + [it]))
         return found
     res = rec(0, len(sf.toks), segs, [])
